@@ -24,6 +24,10 @@ pub static mut MCALLS: u8 = 0;
 pub fn clone_a(a: &u8) -> u8 { unsafe { MCALLS = MCALLS.wrapping_add(1); } a.wrapping_add(1) }
 pub fn clone_b(a: &u8) -> u8 { unsafe { MCALLS = MCALLS.wrapping_add(1); } a ^ 0x55 }
 pub fn mcalls() -> u8 { unsafe { MCALLS } }
+/// a custom clone method whose PATH ends in `clone` (it is not the trait method)
+pub mod alt { pub fn clone(a: &u8) -> u8 { unsafe { super::MCALLS = super::MCALLS.wrapping_add(1); } a.wrapping_add(7) } }
+/// a conversion method generic over its result: it type-checks for every integer target
+pub fn into_g<T: From<u8>>(a: u8) -> T { T::from(a / 2) }
 pub fn into_a(a: u8) -> u16 { a as u16 + 1000 }
 pub fn into_b(a: u8) -> u32 { ((a as u32) << 2) | 1 }
 pub fn into_c(a: u16) -> u16 { a ^ 0x00ff }
@@ -139,6 +143,14 @@ pub mod m {
     pub uninterp spec fn clone_b_spec(a: u8) -> u8;
     #[verifier::external_body]
     pub fn clone_b(a: &u8) -> (r: u8) ensures r == clone_b_spec(*a) { unimplemented!() }
+    pub mod alt {
+        use vstd::prelude::*;
+        verus! {
+        pub uninterp spec fn clone_spec(a: u8) -> u8;
+        #[verifier::external_body]
+        pub fn clone(a: &u8) -> (r: u8) ensures r == clone_spec(*a) { unimplemented!() }
+        }
+    }
     pub uninterp spec fn into_a_spec(a: u8) -> u16;
     #[verifier::external_body]
     pub fn into_a(a: u8) -> (r: u16) ensures r == into_a_spec(a) { unimplemented!() }
@@ -220,6 +232,8 @@ impl Val for &'static Box<u8> { fn draw<S: Src>(s: &mut S) -> Self { Box::leak(B
 /// wide raw pointers into one static buffer: same address with different lengths, different addresses
 pub static PBUF: [u8; 4] = [1, 2, 3, 4];
 impl Val for *const [u8] { fn draw<S: Src>(s: &mut S) -> Self { let o = (s.u8() & 1) as usize; let n = (s.u8() & 1) as usize + 1; &PBUF[o..o + n] as *const [u8] } }
+impl Val for (u8,) { fn draw<S: Src>(s: &mut S) -> Self { (s.u8(),) } }
+impl Val for (u8, u8,) { fn draw<S: Src>(s: &mut S) -> Self { (s.u8(), s.u8()) } }
 impl Val for Box<u8> { fn draw<S: Src>(s: &mut S) -> Self { Box::new(s.u8()) } }
 impl Val for &'static mut u8 { fn draw<S: Src>(s: &mut S) -> Self { Box::leak(Box::new(s.u8())) } }
 impl Val for crate::m::Inc { fn draw<S: Src>(s: &mut S) -> Self { crate::m::Inc(s.u8()) } }
@@ -283,7 +297,7 @@ pub trait IsNotCopy { fn is_copy(&self) -> bool; }
 impl<T> IsNotCopy for &Probe<T> { fn is_copy(&self) -> bool { false } }
 pub trait Same { fn same(&self, o: &Self) -> bool; }
 macro_rules! same_eq { ($($t:ty),*) => { $(impl Same for $t { fn same(&self, o: &Self) -> bool { self == o } })* } }
-same_eq!(u8, u16, u32, u64, usize, i8, i16, i32, i64, isize, bool, char, (), &'static str, String, crate::m::K, crate::m::W, Option<u8>, [u8; 4], [u8; 2], &'static u8, &'static [u8; 2], crate::m::Adv, Option<bool>, crate::m::Num, *const [u8]);
+same_eq!(u8, u16, u32, u64, usize, i8, i16, i32, i64, isize, bool, char, (), &'static str, String, crate::m::K, crate::m::W, Option<u8>, [u8; 4], [u8; 2], &'static u8, &'static [u8; 2], crate::m::Adv, Option<bool>, crate::m::Num, *const [u8], (u8,), (u8, u8,));
 impl Same for f32 { fn same(&self, o: &Self) -> bool { self.to_bits() == o.to_bits() } }
 impl Same for f64 { fn same(&self, o: &Self) -> bool { self.to_bits() == o.to_bits() } }
 impl<const ID: usize> Same for crate::m::Ctr<ID> { fn same(&self, o: &Self) -> bool { self.0 == o.0 } }
